@@ -31,6 +31,12 @@ Decided statically on the CFG of every instantiated member (payloads int / doubl
   (all rules) the entry points are the public members; calls to functions defined in the class's own header (private helpers,
            member templates, closures invoked directly) are followed with the lock state and the automaton state carried
            through (rkstatic.x_sync.Inliner), so a critical section that lives in a helper counts for its callers.
+  (extra members)  a data member outside the table is decided from its accesses: an atomic that the producer / consumer side only
+           writes (result unused) and only other accessors read is statistics and needs no lock; a plain member is fine when every
+           access is under the mutex, or confined to one side, or never written after construction, and a data race (violation)
+           when it is written without the lock while a member of the other side or an unclassified public member also touches it
+           without the lock.  Members of the class template that the driver does not instantiate have no CFG: their accesses
+           are judged on lexical lock scopes (lock_guard / unique_lock declared earlier in an enclosing block).
   R-C12-4  TransactionalValue assignment (producer): on every path the argument is stored into queuedValue and the flag is
            set, both inside one lock scope.
 """
@@ -735,7 +741,34 @@ def check_update(ctx, tu, sy, f, counts):
                        'that value is never delivered', node)
         return (locks, known, flag, inst, False, False, vars_)
 
+    def flag_value(e, vars_):
+        """abstract value of a boolean expression: True / False (constant), ('flag', polarity) = the value of the flag as this
+        path observed it, or None.  A read of the flag made after update() has reset it yields false (the reset is the last
+        write of this thread; a concurrent new assignment could only make the verdict depend on timing)."""
+        cb = sy.const_bool(e)
+        if cb is not None:
+            return cb
+        pol, atom = sy.cond_atom(e)
+        if atom is None:
+            return None
+        d = dict(vars_)
+        if flag_token(tu, sy, atom, FLAG):
+            return (not pol) if d.get('$reset') else ('flag', pol)
+        tid = sy.local_var(atom) or atom.get('id')
+        v = d.get(tid)
+        if isinstance(v, bool):
+            return v if pol else (not v)
+        if isinstance(v, tuple):
+            return ('flag', v[1] if pol else (not v[1]))
+        return None
+
+    def concrete(v, flag):
+        if isinstance(v, tuple):
+            return None if flag is None else (flag if v[1] else (not flag))
+        return v
+
     # state: (locks, known, flag, installed, inst_in_scope, reset_in_scope, boolvars)
+    #   boolvars: local bool / helper call -> True | False | ('flag', polarity) | None;  '$reset' -> the flag was reset on this path
     def transfer(blk, i, e, st):
         if i == 0:
             cur['at'] = (blk.id, st)
@@ -757,20 +790,22 @@ def check_update(ctx, tu, sy, f, counts):
             d = dict(vars_)
             for v in tu.kids(n):
                 if v.get('kind') == 'VarDecl' and v.get('type', {}).get('qualType', '').replace('const ', '') == 'bool':
-                    d[v['id']] = sy.const_bool(tu.kids(v)[-1]) if tu.kids(v) else None
+                    d[v['id']] = flag_value(tu.kids(v)[-1], vars_) if tu.kids(v) else None
             return [(locks, known, flag, inst, iscope, rscope, frozenset(d.items()))]
         if k == 'BinaryOperator' and n.get('opcode') == '=':
             var = sy.local_var(tu.kids(n)[0])
             if var is not None and var in dict(vars_):
                 d = dict(vars_)
-                d[var] = sy.const_bool(tu.kids(n)[1])
+                d[var] = flag_value(tu.kids(n)[1], vars_)
                 return [(locks, known, flag, inst, iscope, rscope, frozenset(d.items()))]
         if ev is not None and ev[0] == 'store':
             _k, fld, val, order, node = ev
             if fld == FLAG:
                 if val is False:
                     # `flag` keeps what the path *observed*; our own reset does not change that
-                    return [(locks, known, flag, inst, iscope, True, vars_)]
+                    d = dict(vars_)
+                    d['$reset'] = True
+                    return [(locks, known, flag, inst, iscope, True, frozenset(d.items()))]
                 found.und(R3, 'update() stores something other than false to the flag', node)
                 return [st]
             if fld == CURRENT:
@@ -792,11 +827,10 @@ def check_update(ctx, tu, sy, f, counts):
                                n)
                 return [(locks, known, flag, True, True, rscope, vars_)]
         if k == 'ReturnStmt':
+            if inl.depth > 0:
+                return [st]             # return of a followed helper (its value reaches update() through the call hooks)
             ks = tu.kids(n)
-            v = None
-            if ks:
-                var = sy.local_var(ks[0])
-                v = dict(vars_).get(var) if var is not None else sy.const_bool(ks[0])
+            v = concrete(flag_value(ks[0], vars_), flag) if ks else None
             if v is None:
                 found.und(R3, 'return value of update() is not a constant / a local with a known constant value on this path', n)
             elif v and not inst:
@@ -818,15 +852,31 @@ def check_update(ctx, tu, sy, f, counts):
         locks, known, flag, inst, iscope, rscope, vars_ = st
         if flag_token(tu, sy, atom, FLAG):
             return [(locks, known, truth, inst, iscope, rscope, vars_)]
-        var = sy.local_var(atom)
-        if var is not None and var in dict(vars_):
-            v = dict(vars_)[var]
+        tid = sy.local_var(atom) or atom.get('id')
+        if tid is not None and tid in dict(vars_):
+            v = dict(vars_)[tid]
+            if isinstance(v, tuple):        # a local / helper result that holds the observed flag: branching on it observes it
+                obs = truth if v[1] else (not truth)
+                if flag is not None and flag != obs:
+                    return []
+                return [(locks, known, obs, inst, iscope, rscope, vars_)]
             if v is not None and v != truth:
                 return []
         return [st]
 
+    class UpdateHooks(C12Hooks):
+        def ret_value(self, e, st):
+            return flag_value(e, st[6])
+
+        def post_call(self, n, cf, st, rv):
+            if rv is not None:
+                d = dict(st[6])
+                d[n['id']] = rv
+                return [st[:6] + (frozenset(d.items()),)]
+            return [st]
+
     res, outs = inl.explore(f, [(frozenset(), frozenset(), None, False, False, False, frozenset())], transfer, refine,
-                            C12Hooks(sy, found, R3))
+                            UpdateHooks(sy, found, R3))
     for (st, _rv, via) in outs:
         if st[4] or st[5]:
             release(st, None)
@@ -947,6 +997,190 @@ def atomic_mirror(tu, sy, rec, T, member):
         if not any(member in w for w in probe.bad):
             return True
     return False
+
+
+SIDES = {
+    BUF: {'push_back': 'producer', 'consume': 'consumer'},
+    VAL: {'operator=': 'producer', 'ref': 'consumer', 'get': 'consumer', 'update': 'consumer'},
+}
+
+
+def access_kind(tu, sy, n):
+    """how the member expression n is used: 'load' / 'store' / 'rmw' / 'rmw-unused' (atomic), 'read' / 'write' (plain)"""
+    user = nearest_user(tu, n)
+    a = sy.atomic_op(user) if user is not None else None
+    if a is not None:
+        kind = {'load': 'load', 'store': 'store'}.get(a['op'], 'rmw')
+        if kind == 'rmw':
+            pu = tu.par(user)
+            if pu is not None and pu.get('kind') in ('CompoundStmt', 'ExprWithCleanups'):
+                kind = 'rmw-unused'         # result discarded: a pure write
+        return kind
+    if user is not None and ((user.get('kind') in ('BinaryOperator', 'CompoundAssignOperator') and
+                              (user.get('opcode') == '=' or user.get('kind') == 'CompoundAssignOperator') and
+                              tu.strip(tu.kids(user)[0], casts=True) is n) or
+                             (user.get('kind') == 'UnaryOperator' and user.get('opcode') in ('++', '--', '&'))):
+        return 'write'
+    return 'read'
+
+
+def uninstantiated_members(tu, rec):
+    """member function patterns of the class template that the driver does not instantiate (new members the driver does not
+    know, members that do not compile when instantiated): they have an AST but no CFG"""
+    inst = {f.get('pat') for f in tu.functions.values() if not f['dep']}
+    return [f for f in tu.functions.values() if f['dep'] and f.get('rec') == rec and f['id'] not in inst
+            and not f.get('ctor') and not f.get('dtor') and tu.body(f) is not None]
+
+
+def lexical_lock(tu, sy, f, n, mutex):
+    """is n inside the lexical scope of a lock variable on `mutex`?  True / False / None (a unique_lock that is unlocked by hand)"""
+    x = n
+    for _ in range(60):
+        par = tu.par(x)
+        if par is None:
+            return False
+        if par.get('kind') == 'CompoundStmt':
+            for sib in tu.kids(par):
+                if sib is x or sib.get('id') == x.get('id'):
+                    break
+                if sib.get('kind') == 'DeclStmt':
+                    for var, m, held, _v in sy.lock_decl(sib):
+                        if m == mutex and held:
+                            manual = any(y.get('kind') == 'CXXMemberCallExpr' and last(tu.sd(y).get('q')) in ('unlock', 'release')
+                                         for y in tu.walk(tu.body(f)) if 'id' in y)
+                            return None if manual else True
+                        if m == mutex and held is None:
+                            return None
+        if par.get('kind') in ('CXXMethodDecl', 'FunctionDecl', 'LambdaExpr'):
+            return False
+        x = par
+    return False
+
+
+def pattern_accesses(tu, sy, rec, T, members):
+    """accesses to this-><member> in uninstantiated member patterns, with the lexical lock state"""
+    out = []
+    mutex = (rec, T['mutex'])
+    for f in uninstantiated_members(tu, rec):
+        for n in tu.walk(tu.body(f)):
+            if 'id' not in n or n.get('kind') != 'MemberExpr':
+                continue
+            fld = sy.field(n)
+            if fld is None or fld[0] != rec or fld[1] not in members or not sy.base_is_this(n):
+                continue
+            out.append((f, f, lexical_lock(tu, sy, f, n, mutex), access_kind(tu, sy, n), n))
+    return out
+
+
+def check_uninstantiated(ctx, tu, sy, rec, T, counts):
+    """R-C12-1 for members without an instantiation: guarded members must be inside the lexical scope of a lock on the mutex"""
+    by_fn = {}
+    for a in pattern_accesses(tu, sy, rec, T, set(T['guarded'])):
+        by_fn.setdefault(a[0]['id'], []).append(a)
+    for f in uninstantiated_members(tu, rec):
+        if not is_public(f):
+            continue
+        accs = by_fn.get(f['id'], [])
+        counts[R1] += 1
+        inst = '%s %s (not instantiated: lexical lock scopes)' % (f['q'].replace('rkcommon::containers::', '').replace('rkcommon::utility::', ''), f['fty'])
+        bad = False
+        for (_f, _c, held, kind, n) in accs:
+            if kind == 'load' or held is True:
+                continue
+            bad = True
+            fld = sy.field(n)[1]
+            if held is None:
+                ctx.undecided(R1, inst, 'access to %s under a lock that is released by hand: needs the CFG of an instantiation' % fld,
+                              tu.loc(n))
+            else:
+                ctx.violation(R1, inst, 'the member %s (guarded by %s) is accessed outside the scope of a lock on %s'
+                              % (fld, T['mutex'], T['mutex']), tu.loc(n),
+                              key='%s|%s|%s|%s-unlocked' % (R1, T['file'], fn_short(f), fld), path=['%s: %s' % (tu.loc(n), tu.show(n))])
+        if not bad:
+            ctx.ok(R1, inst, '%d access(es) to guarded members, all inside a lock scope' % len(accs), tu.fn_loc(f), nontrivial=bool(accs))
+
+
+def extra_member_accesses(tu, sy, rec, T, member):
+    """every access to this->member in the public members (helpers followed, lock state carried):
+    [(entry function, function of the access, lock held?, kind 'read'|'write'|'load'|'store'|'rmw-unused'|'rmw', node)]"""
+    out = []
+    mutex = (rec, T['mutex'])
+    inl = inliner(tu, T)
+    for f in tu.functions.values():
+        if f['dep'] or f.get('rec') != rec or tu.cfg(f) is None or f.get('ctor') or f.get('dtor') or not is_public(f):
+            continue
+        found = Found(T['file'], inl)
+
+        def transfer(blk, i, e, st, f=f):
+            locks, known = st
+            ev = sy.event(e)
+            n = tu.node(e[1]) if e[0] == 'S' else None
+            if ev is not None and ev[0] in LOCK_EVENTS:
+                locks, known, _p = LockState.apply(locks, known, ev)
+                return [(locks, known)]
+            if n is None or n.get('kind') != 'MemberExpr' or sy.field(n) != (rec, member) or not sy.base_is_this(n):
+                return [st]
+            cur = inl.stack[-1] if inl.stack else f
+            out.append((f, cur, LockState.holds(locks, mutex), access_kind(tu, sy, n), n))
+            return [st]
+
+        inl.explore(f, [(frozenset(), frozenset())], transfer, None, C12Hooks(sy, found, R1))
+    out += pattern_accesses(tu, sy, rec, T, {member})      # new members the driver does not instantiate
+    return out
+
+
+def check_extra_member(ctx, tu, sy, rec, T, r, member, ct, counts):
+    """a data member outside the frozen table.  Decided where the accesses decide it:
+      atomic, never read by a producer- or consumer-side member (only written there, read by other accessors): statistics, no lock
+         needed and no decision of the hand-off depends on it;
+      non-atomic: every access under the class mutex (guarded), or every accessing public member on the same side (confined),
+         or never written after construction: fine;  written without the lock while a member of the other side / an
+         unclassified public member (callable from any thread) also touches it without the lock: data race (violation).
+    Everything else stays undecided.  Returns nothing; records the verdict."""
+    inst = '%s::%s' % (r['q'].replace('rkcommon::containers::', '').replace('rkcommon::utility::', ''), member)
+    acc = extra_member_accesses(tu, sy, rec, T, member)
+    side_of = lambda f: SIDES[rec].get(last(f['q']), 'any')
+    counts[R1] += 1
+    if not acc:
+        ctx.ok(R1, inst, 'extra member %s is not accessed by any public member' % member, T['file'])
+        return
+    if is_atomic_type(ct):
+        deciding = [a for a in acc if a[3] in ('load', 'rmw') and side_of(a[0]) != 'any']
+        if not deciding:
+            ctx.ok(R1, inst, 'extra atomic member: only written (result unused) by the producer / consumer side and read by other '
+                   'accessors - no decision of the hand-off depends on it and an atomic needs no lock (%d access(es))' % len(acc),
+                   T['file'])
+        else:
+            a = deciding[0]
+            ctx.undecided(R1, inst, 'extra atomic member %s is read by %s: it may take part in the hand-off protocol, which lock / '
+                          'ordering discipline applies is not in the table of the check' % (member, fn_short(a[1])), tu.loc(a[4]))
+        return
+    if 'mutex' in ct or 'condition_variable' in ct:
+        ctx.undecided(R1, inst, 'extra synchronisation member %s (%s): its role is not in the table of the check' % (member, ct), T['file'])
+        return
+    if any(a[2] is None for a in acc):
+        ctx.undecided(R1, inst, 'extra member %s is accessed in a member that is not instantiated, under a lock released by hand' % member,
+                      T['file'])
+        return
+    unlocked = [a for a in acc if not a[2]]
+    writes = [a for a in acc if a[3] == 'write']
+    sides = {side_of(a[0]) for a in acc}
+    if not unlocked:
+        ctx.ok(R1, inst, 'extra member: all %d access(es) are under %s' % (len(acc), T['mutex']), T['file'])
+    elif not writes:
+        ctx.ok(R1, inst, 'extra member: never written after construction', T['file'])
+    elif sides in ({'producer'}, {'consumer'}):
+        ctx.ok(R1, inst, 'extra member: confined to the %s side' % sides.pop(), T['file'])
+    else:
+        uw = [a for a in unlocked if a[3] == 'write'] or unlocked
+        a = uw[0]
+        others = sorted({fn_short(x[0]) for x in acc if x[0]['id'] != a[0]['id']})
+        ctx.violation(R1, '%s %s' % (a[0]['q'].replace('rkcommon::utility::', '').replace('rkcommon::containers::', ''), a[0]['fty']),
+                      'the non-atomic member %s is accessed without %s here, and it is also accessed by %s, which another thread may '
+                      'call (different side of the hand-off / unclassified public member): data race. Make it std::atomic or take '
+                      'the lock' % (member, T['mutex'], ', '.join(others) or 'other members'), tu.loc(a[4]),
+                      key='%s|%s|%s|%s-unlocked' % (R1, T['file'], fn_short(a[1]), member),
+                      path=['%s: %s' % (tu.loc(a[4]), tu.show(a[4]))])
 
 
 # ======================================================================================================
@@ -1171,8 +1405,7 @@ def check_tu(ctx, tu, counts):
                         ctx.note('%s: new atomic member `%s` is written under %s in at least one member function: treated as guarded by it'
                                  % (T['short'], extra, T['mutex']))
                     continue
-                ctx.undecided(R1, r['q'], 'data member %s is not in the guarded-by table of the check (which lock protects it?)' % extra,
-                              T['file'])
+                check_extra_member(ctx, tu, sy, rec, T, r, extra, names[extra], counts)
         if not okrec:
             continue
         for f in tu.functions.values():
@@ -1190,6 +1423,7 @@ def check_tu(ctx, tu, counts):
                 check_update(ctx, tu, sy, f, counts)
             elif name == 'operator=':
                 check_assign(ctx, tu, sy, f, counts)
+        check_uninstantiated(ctx, tu, sy, rec, T, counts)
 
 
 def run(ctx):
@@ -1207,7 +1441,7 @@ def run(ctx):
     ctx.assume('TransactionalValue is used 1-to-1 as documented: one producer thread assigns, one consumer thread calls update()/get()/ref()')
     ctx.assume('a moved-from std::vector is empty (libstdc++ / every mainstream implementation; the standard only says valid but unspecified)')
     ctx.note('TransactionalValue::operator=(const TransactionalValue<T>&) calls the non-const ref() on a const argument and does not '
-             'compile when instantiated: it has no instantiation to analyse (dead code, not part of the documented usage)')
+             'compile when instantiated: it has no instantiation and no CFG; R-C12-1 is decided for it on lexical lock scopes only')
     jobs = [dict(unit='drivers/c12_handoff.cpp', config='TBB')]
     if ctx.tier == 'thorough':
         jobs.append(dict(unit='drivers/c12_handoff.cpp', config='TBB', std='gnu++17'))
